@@ -292,6 +292,8 @@ func (x *Exec) merge(states []*State) *State {
 		for _, s := range live {
 			if v, ok := s.ghost[k]; ok {
 				x.u.fact("(=> " + s.pc + " (= " + n + " " + v.T + "))")
+			} else if strings.HasPrefix(k, "mcnt:") {
+				x.u.fact("(=> " + s.pc + " (= " + n + " 0))") // monitor never touched on this path
 			} else if strings.HasPrefix(k, "defer:") || strings.HasPrefix(k, "mrel:") {
 				x.u.fact("(=> " + s.pc + " (not " + n + "))") // defer statement not executed on this path
 			}
